@@ -33,6 +33,20 @@ else
   note "plain inconclusive: build failed"; echo "[plain] AUX-INCONCLUSIVE build failed (see $AUX/build-plain.log)"
 fi
 
+# ---- coverage-guided driver (libFuzzer feeding the PRNG of this property's random workload; same monitors and oracles)
+fo=$("$HERE/tools/fuzz_prop.sh" "$ID" "${VERIF_FUZZ_S:-150}" "$TGT" "$AUX" "$SEED" 2>&1); r=$?
+echo "$fo" | cut -c1-400
+if [ $r -eq 1 ]; then
+  mkdir -p "$HERE/replays"
+  for a in "$AUX"/fuzz-artifacts/*; do
+    [ -f "$a" ] || continue
+    rp="$HERE/replays/$ID-thorough-s$SEED-fuzz-$(basename "$a")"; cp "$a" "$rp"
+    echo "VIOLATION property=$ID replay=$rp"
+  done
+  fail=1; note "coverage-guided driver: oracle violation"
+elif [ $r -ne 0 ]; then note "coverage-guided driver inconclusive"
+else note "$(echo "$fo" | grep -a '^\[fuzz\] property' | head -1)"; fi
+
 case "$ID" in C10|C11|C13|C19)
   # ---- ASan
   ensure_fresh "$TGT-asan"
